@@ -334,6 +334,8 @@ fn open_index(config: &crate::config::Config) -> Result<(bool, Index)> {
     // commit.
     if config.meta_path.is_file() {
         fs::remove_file(&config.meta_path)?;
+        #[cfg(feature = "verif")]
+        crate::verif::point("index.meta_invalidated", "", 0, 0)?;
     }
 
     if config.index_path.is_dir() {
